@@ -7,7 +7,17 @@ from props import c01, c08
 
 ID = 'C07'
 LEAN_MODULES = ['PybtexModel.Props.C07']
-THEOREMS = {}
+THEOREMS = {
+    'C07_one_per_citation': 'exactly one formatted entry per resolved citation: the formatted keys are a permutation of the entries denoted by the resolved, present citations; no resolved citation loses its entry',
+    'C07_order_none': 'sorting style none: the formatted entries come in the order of the resolved citations',
+    'C07_key_order': 'the comparison of author_year_title (Python < on the key triples) is a strict total order',
+    'C07_order_ayt': 'sorting style author_year_title: the output is a permutation of the resolved entries, sorted by the key triple, entries with equal triples keep their citation order (stable)',
+    'C07_sort_generic': 'the insertion sort modelling sorted() returns a sorted, stable permutation for any strict weak order',
+    'C07_number_labels': 'number labels are "1" .. "n" in output order and pairwise distinct (decimal notation is injective)',
+    'C07_alpha_labels_partial': 'alpha labels = base labels run through the suffix loop; pairwise distinct provided no unique base label equals a repeated base label plus one of its suffix letters and no label repeats more than 26 times',
+    'C07_alpha_suffix_partial': 'the suffix loop alone: no repetition under the proviso, for any list of base labels',
+    'C07_alpha_labels_neg': 'witness: base labels ab, ab, aba get the labels aba, abb, aba (finding C07-alpha-suffix-collision)',
+}
 RULE = ('databases over all seventeen entry types, each entry with a random subset of the fields its template reads (values with braces, '
         'hyphens, punctuation; persons in all name forms; cross-references), every citation list shape (subset / permutation / "*" / '
         'unknown key), formatting style x label style x sorting style x name style x abbreviate_names; the templates and name templates '
